@@ -256,6 +256,10 @@ R("group_by", 1, lambda c: {"f": c.fn("key"), "g": c.rng.choice([None, c.fn("map
   lambda w, n, a, i: i[0].pipe(ops.group_by(F(w, n, a, "f"), F(w, n, a, "g"))), {"inner", "cb"})
 R("group_by_until", 1, lambda c: {"f": c.fn("key"), "g": c.rng.choice([None, c.fn("map")]), "pool": c.pool(2, True), "dur": c.fn("inner")},
   lambda w, n, a, i: i[0].pipe(ops.group_by_until(F(w, n, a, "f"), F(w, n, a, "g"), F(w, n, a, "dur"))), {"inner", "cb", "pool"})
+# a group that expires on its own traffic: the duration observable is derived from the group itself (the usual idiom:
+# "close a group after k of its elements / when it falls silent")
+R("group_by_until_self", 1, lambda c: {"f": c.fn("key"), "k": c.rng.randrange(0, 3)},
+  lambda w, n, a, i: i[0].pipe(ops.group_by_until(F(w, n, a, "f"), None, lambda g: g.pipe(ops.skip(a["k"])))), {"inner", "cb"})
 R("group_by_merge", 1, lambda c: {"f": c.fn("key")},
   lambda w, n, a, i: i[0].pipe(ops.group_by(F(w, n, a, "f")), ops.flat_map(lambda g: g.pipe(ops.to_list()))), {"cb"})
 R("partition0", 1, lambda c: {"f": c.fn("pred"), "which": c.rng.randrange(2)},
